@@ -493,6 +493,67 @@ theorem serve_no_panic (timeoutSet : Bool) (trees : List Tree) (s : Bytes) (evs 
   obtain ⟨r, hr, _⟩ := serve_general timeoutSet trees s evs
   exact ⟨r, hr⟩
 
+/-! ### `serve`, any script: who can get the connection, and in which state -/
+
+/-- For EVERY script (pauses, time-outs, EOF, errors, even data together with an error): when
+    `serveLoop` hands the connection to the `j`-th listener, the `j`-th matcher has accepted
+    bytes `v` that are a prefix of the stream; the connection is not closed, the sniff
+    deadline is cleared and buffered ++ undelivered is still the whole stream.  Otherwise
+    the connection is closed. -/
+theorem serveLoop_any {s : Bytes} (timeoutSet : Bool) (trees : List Tree) (i : Nat) (st : St)
+    (evs : List Ev) (views : List Bytes) (h1 : st.buffer ++ st.rem = s) (h2 : st.direct = false) :
+    ∃ r, serveLoop timeoutSet trees i st evs views = .ok r ∧
+      (∀ j, r.route = .service j → ∃ t v, i ≤ j ∧ trees[j - i]? = some t ∧ v <+: s ∧
+          t.matchBuf v true = true ∧ r.st.closed = st.closed ∧
+          (timeoutSet = true → r.st.deadline = false) ∧ pending r.st ++ r.st.rem = s) ∧
+      (r.route = .closed → r.st.closed = true) := by
+  induction trees generalizing i st evs views with
+  | nil =>
+    refine ⟨_, rfl, ?_, fun _ => rfl⟩
+    intro j h
+    cases h
+  | cons t ts ih =>
+    obtain ⟨r, hr, rI, _, rcl⟩ :=
+      readFull_pass (t.maxDepth + 1) (reset st true) t.maxDepth evs [] (PassInv_reset h1 h2)
+    have rcl' : r.st.closed = st.closed := rcl
+    simp only [serveLoop, matcherPass, hr]
+    by_cases hm : t.matchBuf r.bytes true = true
+    · simp only [hm, if_true]
+      refine ⟨_, rfl, ?_, fun h => by cases h⟩
+      intro j hj
+      injection hj with hj
+      subst hj
+      obtain ⟨i1, i2, _⟩ := rI
+      refine ⟨t, r.bytes, Nat.le_refl _, by simp, PassInv_prefix ⟨i1, i2, ‹_›⟩, hm, ?_, ?_, ?_⟩
+      · cases timeoutSet <;> simp [setDeadline, reset, rcl']
+      · intro h; subst h; simp [setDeadline]
+      · cases timeoutSet <;> simp [setDeadline, reset, pending, i1, i2]
+    · simp only [hm]
+      obtain ⟨r', hr', hsvc, hcl⟩ := ih (i + 1) r.st r.evs (r.bytes :: views) rI.1 rI.2.1
+      refine ⟨r', hr', ?_, hcl⟩
+      intro j hj
+      obtain ⟨t', v, hle, hget, hv, hmt, hc, hd, hp⟩ := hsvc j hj
+      refine ⟨t', v, by omega, ?_, hv, hmt, by rw [hc, rcl'], hd, hp⟩
+      have : j - i = (j - (i + 1)) + 1 := by omega
+      rw [this, List.getElem?_cons_succ]
+      exact hget
+
+theorem serve_any (timeoutSet : Bool) (trees : List Tree) (s : Bytes) (evs : List Ev) :
+    ∃ r, serve timeoutSet trees s evs = .ok r ∧
+      (∀ j, r.route = .service j → ∃ t v, trees[j]? = some t ∧ v <+: s ∧
+          t.matchBuf v true = true ∧ r.st.closed = false ∧
+          (timeoutSet = true → r.st.deadline = false) ∧ pending r.st ++ r.st.rem = s) ∧
+      (r.route = .closed → r.st.closed = true) := by
+  unfold serve
+  obtain ⟨r, hr, hsvc, hcl⟩ := serveLoop_any (s := s) timeoutSet trees 0
+    (if timeoutSet then setDeadline { rem := s } true else { rem := s }) evs []
+    (by cases timeoutSet <;> simp [setDeadline]) (by cases timeoutSet <;> simp [setDeadline])
+  refine ⟨r, hr, ?_, hcl⟩
+  intro j hj
+  obtain ⟨t, v, _, hget, hv, hm, hc, hd, hp⟩ := hsvc j hj
+  refine ⟨t, v, by simpa using hget, hv, hm, ?_, hd, hp⟩
+  rw [hc]; cases timeoutSet <;> simp [setDeadline]
+
 /-! ### `serve`, data-only scripts -/
 
 theorem sniffRead_clean {s : Bytes} {st : St} {acc : Bytes} {k : Nat} {evs : List Ev} (hI : PassInv s st acc)
